@@ -1,4 +1,5 @@
 import MaltModel.Analysis.ReachDef
+import MaltModel.Proofs.C06Worklist
 /-!
 # C06 — reaching definitions and defined-on-entry sets are sound
 
@@ -157,6 +158,44 @@ theorem C06_model_sound (D : CfgData) (fuel : Nat) (hq : (rdRunModel D fuel).ope
   obtain ⟨hfix, hc, he⟩ := C06_worklist_fix D fuel hq
   have hV := C06_walk_visited D.graph.edges _ hc R len (by rw [h0]; exact he) hpath
   exact C06_rd_sound _ _ _ _ _ hfix.toPostFix R len hV hpath hgen hkill k v j hk hl
+
+/-- **Termination of the work-list model**, no hypothesis: with the fuel `rdFuel D` (computed from the graph and the gen sets:
+`fuelBound`), or any larger fuel, the model of `visit_forward` reaches an empty work-list — on every graph, well-formed or not.
+The bound is exponential in the number of nodes because the algorithm is (see `Proofs/C06Worklist.lean`). -/
+theorem C06_worklist_terminates (D : CfgData) (fuel : Nat) (hfuel : rdFuel D ≤ fuel) : (rdRunModel D fuel).open_ = [] :=
+  run_terminates D.graph.edges (rdFlow D) [D.entry] fuel hfuel
+
+/-- **The model computes the least fixed point**: a fixed point (equality) on its visited set, which contains the entry and is
+closed under the edges, and below EVERY post-fixed point over any closed node set containing the entry — so every other
+correct iteration order (any algorithm returning a least solution) yields the same sets (`lfp_unique`). -/
+theorem C06_worklist_lfp (D : CfgData) :
+    IsFix D.graph.edges (rdRunModel D (rdFuel D)).closed (rdFlow D) (rdRunModel D (rdFuel D)).A (rdRunModel D (rdFuel D)).B ∧
+    closedUnder D.graph.edges (rdRunModel D (rdFuel D)).closed = true ∧ D.entry ∈ (rdRunModel D (rdFuel D)).closed ∧
+    ∀ (V' : List Nat) (A' B' : St Def), IsPostFix D.graph.edges V' (rdFlow D) A' B' → D.entry ∈ V' →
+      closedUnder D.graph.edges V' = true →
+      ∀ n a, (a ∈ (rdRunModel D (rdFuel D)).B n → a ∈ B' n) ∧ (a ∈ (rdRunModel D (rdFuel D)).A n → a ∈ A' n) := by
+  obtain ⟨h1, h2, h3⟩ := C06_worklist_fix D (rdFuel D) (C06_worklist_terminates D _ (Nat.le_refl _))
+  refine ⟨h1, h2, h3, ?_⟩
+  intro V' A' B' hpost hentry hclosed
+  exact run_below_postfix D.graph.edges (rdFlow D) [D.entry] V' A' B' hpost
+    (fun n hn => by simp only [List.mem_singleton] at hn; subst hn; exact hentry) hclosed (rdFuel D)
+
+/-- Corollary for the REAL output: whatever `Analyzer.in_/out` the post-fixed-point checker accepts (on the model's visited set)
+lies above the least fixed point … -/
+theorem C06_real_above_lfp (D : CfgData) (IN OUT : St Def)
+    (h : isPostFix D.graph.edges (rdRunModel D (rdFuel D)).closed (rdFlow D) IN OUT = true) :
+    ∀ n a, (a ∈ (rdRunModel D (rdFuel D)).B n → a ∈ OUT n) ∧ (a ∈ (rdRunModel D (rdFuel D)).A n → a ∈ IN n) := by
+  obtain ⟨_, h2, h3, h4⟩ := C06_worklist_lfp D
+  exact h4 _ IN OUT (isPostFix_sound h) h3 h2
+
+/-- … and the additional `isLeast` check the driver runs (`model_eq`: `solEqOn … = true`) says the real output IS the least
+fixed point, node by node: a change that makes the real analysis return a larger but still sound solution shows up as a
+difference in this check. -/
+theorem C06_real_is_lfp (D : CfgData) (IN OUT : St Def)
+    (hA : solEqOn D.graph.nodes (rdRunModel D (rdFuel D)).A IN = true)
+    (hB : solEqOn D.graph.nodes (rdRunModel D (rdFuel D)).B OUT = true) :
+    ∀ n, n ∈ D.graph.nodes → SetEq ((rdRunModel D (rdFuel D)).A n) (IN n) ∧ SetEq ((rdRunModel D (rdFuel D)).B n) (OUT n) :=
+  fun n hn => ⟨solEqOn_spec hA n hn, solEqOn_spec hB n hn⟩
 
 /-! ## The pinned tree: `def f(xs): x = 1; for x in xs: pass; return x` with `xs = []`
 (literals below are the REAL graph / Scope sets / `Analyzer.in_/out` / trace, printed by the harness;
@@ -332,5 +371,13 @@ theorem C06_default_read_counterexample :
     isLastWriterB ndT 1 2 ndName.var = true ∧ forTargetKilledUnwritten ndD ndT 1 2 ndName.var = false ∧
     otherKillUnwritten ndD ndT 1 2 ndName.var = false ∧ (ndName.var, ndT.nodeAt 1) ∈ ndIN (ndT.nodeAt 2) ∧
     nameDefsAtEval ndIN ndName (ndT.nodeAt 2) = false ∧ (ndName.var, ndT.nodeAt 1) ∉ ndName.defs := by decide
+
+/-- Non-vacuity of the termination / least-fixed-point theorems: on the real graph of the first example the run with the proved
+fuel is quiescent and its result is the real `in_/out` (so the real output is the least fixed point there). -/
+example : (rdRunModel ztD (rdFuel ztD)).open_ = [] := C06_worklist_terminates ztD _ (Nat.le_refl _)
+example : solEqOn ztD.graph.nodes (rdRunModel ztD (rdFuel ztD)).A ztIN = true ∧
+    solEqOn ztD.graph.nodes (rdRunModel ztD (rdFuel ztD)).B ztOUT = true := by decide
+example : ∀ n a, (a ∈ (rdRunModel ztD (rdFuel ztD)).B n → a ∈ ztOUT n) ∧ (a ∈ (rdRunModel ztD (rdFuel ztD)).A n → a ∈ ztIN n) :=
+  C06_real_above_lfp ztD ztIN ztOUT (by decide)
 
 end Malt.Analysis.C06
